@@ -94,9 +94,12 @@ func coResume(L *LState) int {
 		// every nested resume runs on the Go stack of its resumer
 		L.RaiseError("C stack overflow")
 	}
-	th.Parent = L
-	L.G.CurrentThread = th
+	// handing the arguments over and setting the first frame up can fail (registry overflow): the
+	// thread becomes the running one only after that, so a failure leaves it resumable
 	if !th.isStarted() {
+		// (a thread whose first frame could not be set up has nothing to resume: it counts as dead
+		// until the set-up is complete)
+		th.Dead = true
 		cf := th.stack.Last()
 		th.currentFrame = cf
 		th.SetTop(0)
@@ -105,11 +108,14 @@ func coResume(L *LState) int {
 		cf.NArgs = nargs
 		th.initCallFrame(cf)
 		th.Panic = panicWithoutTraceback
+		th.Dead = false
 	} else {
 		nargs := L.GetTop() - 1
 		L.XMoveTo(th, nargs)
 		th.padResumeValues(nargs)
 	}
+	th.Parent = L
+	L.G.CurrentThread = th
 	top := L.GetTop()
 	threadRun(th)
 	return L.GetTop() - top
